@@ -37,10 +37,32 @@ def design_level():
     for o in (out_l, out_l3, out_live):
         if "No error has been found" not in o:
             raise common.MachineryError("the locked design fails at the specification level:\n" + o[-1500:])
+    tl = tlaps_unbounded()
     return {"unlocked_design": "NoError violated (expected counterexample found)",
+            "tlaps_locked_design_any_number_of_threads": tl,
             "locked_design_2_threads": dict(zip(("generated", "distinct"), common.tlc_stats(out_l))),
             "locked_design_3_threads": dict(zip(("generated", "distinct"), common.tlc_stats(out_l3))),
             "locked_liveness_AllDone_under_WF": "holds"}
+
+
+def tlaps_unbounded():
+    """ConverterInitProof.tla: NoError, HooksOnlyAfterResolved and pairwise mutual exclusion of the locked design for
+    any set of threads, by an inductive invariant checked by tlapm (design level; does not bind the code)."""
+    import re
+    import shutil
+    if not shutil.which("tlapm"):
+        return {"ran": False}
+    w = common.scratch("tlaps-")
+    try:
+        for f in ("ConverterInitCore.tla", "ConverterInitProof.tla"):
+            shutil.copy(os.path.join(common.SPEC, f), w)
+        pr = subprocess.run(["tlapm", "ConverterInitProof.tla"], cwd=w, stdout=subprocess.PIPE, stderr=subprocess.STDOUT, timeout=900)
+        m = re.search(r"All (\d+) obligations? proved", pr.stdout.decode())
+        if not m:
+            raise common.MachineryError("TLAPS no longer proves the inductive invariant of the locked design:\n" + pr.stdout.decode()[-1500:])
+        return {"ran": True, "all_proved": True, "obligations": int(m.group(1))}
+    finally:
+        shutil.rmtree(w, ignore_errors=True)
 
 
 def schedules(threads=2):
